@@ -26,7 +26,7 @@ def cases(tier, rng, run):
         if i % 3 == 0:
             out.append(Case(c.ctx_line(), "ctx", {"ctx": c}))
         kind = "method" if rng.random() < 0.2 else "func"
-        style = rng.choice(["pos", "kw", "kwrev", "mixed", "fwd", "kwonly", "posonly"] + (["kwself", "kwself"] if kind == "method" else []))
+        style = rng.choice(["pos", "kw", "kwrev", "mixed", "fwd", "fwdpos", "kwonly", "posonly"] + (["kwself", "kwself"] if kind == "method" else []))
         line = c.call_line(kind, style, prov=(("self" if c.scope else "-") if kind == "method" else None))
         r = rng.random()
         if r < 0.3:
@@ -249,6 +249,40 @@ def custom(run, tier, only_passthrough=False):
 
     if only_passthrough:
         return
+    # (1a) every numpy SPELLING of a dtype conforms where the dtype does: C type codes (`q` = long long is int64 on this platform but
+    # a scalar class of its own), byte-order marks, `np.dtype` objects built from names — the class table is about dtypes, not about
+    # how an array's dtype object was obtained
+    spell_n = 0
+    by_name = {"int8": "Int8Tensor", "int16": "Int16Tensor", "int32": "Int32Tensor", "int64": "Int64Tensor", "uint8": "UInt8Tensor", "uint16": "UInt16Tensor",
+               "uint32": "UInt32Tensor", "uint64": "UInt64Tensor", "float16": "Float16Tensor", "float32": "Float32Tensor", "float64": "Float64Tensor", "bool": "BoolTensor"}
+    group = {"i": ["IntTensor", "SignedIntTensor"], "u": ["IntTensor", "UnsignedIntTensor"], "f": ["FloatTensor"], "b": []}
+    for code in ["b", "B", "h", "H", "i", "I", "l", "L", "q", "Q", "p", "P", "n", "N", "e", "f", "d", "?", "=i8", "<i8", "<u2", "|u1", "<f4", "=f8", "int_", "intc", "uintc", "longlong", "ulonglong", "half", "single", "double"]:
+        try:
+            dt = np.dtype(code)
+        except TypeError:
+            continue
+        if dt.name not in by_name:
+            continue
+        arr = np.zeros((3,), dtype=dt)
+        for cname in [by_name[dt.name], *group[dt.kind], "TensorTypeBase"]:
+            cls_ = getattr(dltype, cname, None)
+            if cls_ is None:
+                continue
+            ns_s = {"T": typing.Annotated[np.ndarray, cls_["n"]]}
+            exec("def f(x: T) -> T:\n    return x\n", ns_s)  # noqa: S102
+            with warnings.catch_warnings():
+                warnings.simplefilter("ignore")
+                try:
+                    got = "ok" if dltype.dltyped()(ns_s["f"])(arr) is arr else "different-object"
+                except Exception as e:  # noqa: BLE001
+                    got = type(e).__name__ + ": " + str(e)[:80]
+            spell_n += 1
+            if got != "ok":
+                run.findings.append(Finding("failing-input", f"a numpy array whose dtype is spelled np.dtype({code!r}) (= {dt.name}, scalar class {dt.type.__name__}) does not conform to {cname}: {got}",
+                                            Case(f"SPELLING\t{code}\t{dt.name}\t{cname}", "dtype-spelling"), got, "", "ok"))
+    run.n_cases += spell_n
+    run.n_distinct_nontrivial += spell_n
+    run.dist["dtype-spellings"] += spell_n
     # (1b) re-entrancy: a decorated function entered again between its argument check and its return check (recursion, mutual
     # recursion, the same method on the nodes of a tree) — every level is a conforming call of its own, with sizes of its own
     ns2 = {"dltype": dltype, "A": A, "np": np, "CALLS": []}
